@@ -296,6 +296,14 @@ impl Mmapper for ChunkStateMmapper {
     fn is_mapped_address(&self, addr: Address) -> bool {
         self.storage.get_state(addr) == MapState::Mapped
     }
+
+    #[cfg(feature = "mmtk_verif")]
+    fn verif_set_unmapped(&self, start: Address, bytes: usize) {
+        let _guard = self.transition_lock.lock().unwrap();
+
+        let range = ChunkRange::new_unaligned(start, bytes);
+        self.storage.bulk_set_state(range, MapState::Unmapped);
+    }
 }
 
 /// The mmap state of a mmap chunk.
